@@ -6913,22 +6913,35 @@ impl Machine {
 
     #[inline(always)]
     pub(crate) fn set_seed(&mut self) {
+        // any integer is a valid seed: it is reduced to its 64 low bits
+        // (negative integers and integers of 2^64 and above used to panic here).
+        fn seed_to_u64(n: &Integer) -> u64 {
+            let modulus = Integer::from(1u8) << 64;
+            let mut r = n % &modulus;
+
+            if r < Integer::from(0u8) {
+                r += &modulus;
+            }
+
+            r.try_into().unwrap()
+        }
+
         let seed = self.deref_register(1);
 
         match Number::try_from((seed, &self.machine_st.arena.f64_tbl)) {
             Ok(Number::Fixnum(n)) => {
-                let n: u64 = Integer::from(n).try_into().unwrap();
+                let n: u64 = seed_to_u64(&Integer::from(n));
                 let rng: StdRng = SeedableRng::seed_from_u64(n);
                 self.rng = rng;
             }
             Ok(Number::Integer(n)) => {
-                let n: u64 = (&*n).try_into().unwrap();
+                let n: u64 = seed_to_u64(&n);
                 let rng: StdRng = SeedableRng::seed_from_u64(n);
                 self.rng = rng;
             }
             Ok(Number::Rational(n)) => {
                 if n.denominator() == &UBig::ONE {
-                    let n: u64 = n.numerator().try_into().unwrap();
+                    let n: u64 = seed_to_u64(&Integer::from(n.numerator().clone()));
                     let rng: StdRng = SeedableRng::seed_from_u64(n);
                     self.rng = rng;
                 }
